@@ -59,6 +59,151 @@ theorem eval_parsed {F : Type} (I : FloatOps F) (hneg : ∀ x, I.neg (I.neg x) =
   have := eval_pe I hneg c false
   simpa [eval, parsed] using this
 
+/-- Without directly adjacent minus signs nothing is cancelled, and no property of negation is needed. -/
+theorem eval_pe_noAdj {F : Type} (I : FloatOps F) : ∀ (c : Cst), c.adjNeg = false →
+    evalWith I [] (pe false c) = .ok (evalConv (interpOf I) c.toAst) ∧
+    (c.level ≠ 2 → evalWith I [] (pe true c) = .ok (I.neg (evalConv (interpOf I) c.toAst)))
+  | .neg w a, h => by
+    simp only [Cst.adjNeg, Bool.or_eq_false_iff, beq_eq_false_iff_ne, ne_eq] at h
+    have ih := eval_pe_noAdj I a h.2
+    refine ⟨?_, fun hl => by simp [Cst.level] at hl⟩
+    simp only [pe, Bool.not_false, Cst.toAst, evalConv, ih.2 h.1]
+    rfl
+  | .lit w t, _ => by
+    have h0 : evalWith I [] (Expr.value (litOf t)) = .ok (evalConv (interpOf I) (Cst.lit w t).toAst) := by
+      simp [evalWith, interpOf, Cst.toAst, evalConv]
+    exact ⟨by simpa [pe, wrapNeg] using h0, fun _ => by simpa [pe] using evalWith_wrapNeg I true _ _ h0⟩
+  | .paren w1 a w2, h => by
+    have ih := (eval_pe_noAdj I a (by simpa [Cst.adjNeg] using h)).1
+    exact ⟨by simpa [pe, wrapNeg, Cst.toAst] using ih,
+      fun _ => by simpa [pe, Cst.toAst] using evalWith_wrapNeg I true _ _ ih⟩
+  | .app w1 f w2 a w3, h => by
+    have ih := (eval_pe_noAdj I a (by simpa [Cst.adjNeg] using h)).1
+    have h0 : evalWith I [] (Expr.function f.name (pe false a)) =
+        .ok (evalConv (interpOf I) (Cst.app w1 f w2 a w3).toAst) := by
+      simp only [Cst.toAst, evalConv]
+      cases f <;> (simp only [evalWith, ih, Fn.name]; rfl)
+    exact ⟨by simpa [pe, wrapNeg] using h0, fun _ => by simpa [pe] using evalWith_wrapNeg I true _ _ h0⟩
+  | .bin op a w x, h => by
+    simp only [Cst.adjNeg, Bool.or_eq_false_iff] at h
+    have iha := (eval_pe_noAdj I a h.1).1
+    have ihx := (eval_pe_noAdj I x h.2).1
+    have h0 : evalWith I [] (mkBin op (pe false a) (pe false x)) =
+        .ok (evalConv (interpOf I) (Cst.bin op a w x).toAst) := by
+      simp only [Cst.toAst, evalConv]
+      cases op <;> (simp only [mkBin, evalWith, iha, ihx]; rfl)
+    exact ⟨by simpa [pe, wrapNeg] using h0, fun _ => by simpa [pe] using evalWith_wrapNeg I true _ _ h0⟩
+
+theorem eval_parsed_noAdj {F : Type} (I : FloatOps F) (c : Cst) (h : c.adjNeg = false) :
+    eval I (parsed c) = .ok (evalConv (interpOf I) c.toAst) :=
+  (eval_pe_noAdj I c h).1
+
+/-! ### literals: the model re-reads the matched text, the reference reads the token -/
+
+theorem noDigit_nil : NoDigit [] := fun c t e => by simp at e
+
+theorem literalBits_int {ds : List Char} (hd : allDigits ds = true) :
+    DecFloat.literalBits ds = DecFloat.decToBits (DecFloat.digitsToNat ds) 0 := by
+  have h1 : ds.takeWhile isDigit = ds := by
+    have := takeWhile_digits (rest := []) (digits_of_all hd) noDigit_nil; simpa using this
+  have h2 : ds.dropWhile isDigit = [] := by
+    have := dropWhile_digits (rest := []) (digits_of_all hd) noDigit_nil; simpa using this
+  simp [DecFloat.literalBits, h1, h2]
+
+theorem literalBits_dec {ip fp : List Char} {ex : Option ExpPart} (ht : (LitTok.dec ip fp ex).WF = true) :
+    DecFloat.literalBits (LitTok.dec ip fp ex).text =
+      DecFloat.decToBits (LitTok.dec ip fp ex).decimal.1 (LitTok.dec ip fp ex).decimal.2 := by
+  simp only [LitTok.WF, Bool.and_eq_true] at ht
+  obtain ⟨⟨⟨hi, hf⟩, _⟩, hex⟩ := ht
+  have hi' := digits_of_all hi
+  have hf' := digits_of_all hf
+  have hdot : ∀ t, NoDigit ('.' :: t) := by
+    intro t c tl e; simp only [List.cons.injEq] at e; obtain ⟨rfl, _⟩ := e; decide
+  cases ex with
+  | none =>
+    have e : (LitTok.dec ip fp none).text = ip ++ '.' :: (fp ++ []) := by simp [LitTok.text]
+    rw [e]
+    simp only [DecFloat.literalBits, takeWhile_digits hi' (hdot _), dropWhile_digits hi' (hdot _),
+      takeWhile_digits hf' noDigit_nil, dropWhile_digits hf' noDigit_nil, LitTok.decimal]
+  | some x =>
+    obtain ⟨m, sg, ds⟩ := x
+    have hx : (ExpPart.mk m sg ds).WF = true := hex
+    simp only [ExpPart.WF, Bool.and_eq_true, Bool.or_eq_true, beq_iff_eq, Bool.not_eq_true',
+      List.isEmpty_eq_false_iff] at hx
+    obtain ⟨⟨⟨hm, hsg⟩, hne⟩, hd⟩ := hx
+    have hmnd : ∀ t, NoDigit (m :: t) := by
+      intro t c tl e; simp only [List.cons.injEq] at e; obtain ⟨rfl, _⟩ := e
+      rcases hm with h | h <;> (rw [h]; decide)
+    cases sg with
+    | some c =>
+      have hc : c = '+' ∨ c = '-' := by simpa using hsg
+      have e : (LitTok.dec ip fp (some ⟨m, some c, ds⟩)).text = ip ++ '.' :: (fp ++ (m :: c :: ds)) := by
+        simp [LitTok.text, ExpPart.text]
+      rw [e]
+      simp only [DecFloat.literalBits, takeWhile_digits hi' (hdot _), dropWhile_digits hi' (hdot _),
+        takeWhile_digits hf' (hmnd _), dropWhile_digits hf' (hmnd _), LitTok.decimal]
+      rcases hc with h | h <;> (subst h; simp)
+    | none =>
+      cases ds with
+      | nil => exact absurd rfl hne
+      | cons d ds' =>
+        have hdd := digits_of_all hd d (by simp)
+        have h1 : d ≠ '-' := by intro h; subst h; revert hdd; decide
+        have h2 : d ≠ '+' := by intro h; subst h; revert hdd; decide
+        have e : (LitTok.dec ip fp (some ⟨m, none, d :: ds'⟩)).text = ip ++ '.' :: (fp ++ (m :: d :: ds')) := by
+          simp [LitTok.text, ExpPart.text]
+        rw [e]
+        simp only [DecFloat.literalBits, takeWhile_digits hi' (hdot _), dropWhile_digits hi' (hdot _),
+          takeWhile_digits hf' (hmnd _), dropWhile_digits hf' (hmnd _), LitTok.decimal]
+        split
+        · rename_i heq; simp only [List.cons.injEq] at heq; exact absurd heq.2.1 h1
+        · rename_i heq; simp only [List.cons.injEq] at heq; exact absurd heq.2.1 h2
+        · rename_i heq2
+          simp only [List.cons.injEq] at heq2
+          obtain ⟨_, rfl⟩ := heq2
+          rfl
+        · rename_i heq; simp at heq
+
+/-- The model's reading of a literal (re-lexing the matched text, as `str::parse` does) is the nearest
+double of the decimal value the token denotes. -/
+theorem litBits_agree {t : LitTok} (ht : t.WF = true) : litBits (litOf t) = t.bits := by
+  cases t with
+  | pi => rfl
+  | int ds =>
+    simp only [LitTok.WF, Bool.and_eq_true] at ht
+    simp only [litOf, litBits, LitTok.bits, LitTok.decimal]
+    exact literalBits_int ht.1
+  | dec ip fp ex =>
+    simp only [litOf, litBits, LitTok.bits]
+    exact literalBits_dec ht
+
+/-- On well-formed tokens the code's IEEE interpretation is the reference IEEE interpretation. -/
+theorem evalConv_ieee : ∀ (a : Ast), a.WF = true → evalConv (interpOf floatOps) a = evalConv ieee a
+  | .lit t, h => by
+    simp only [evalConv, interpOf, floatOps, ieee]
+    rw [litBits_agree (by simpa [Ast.WF] using h)]
+  | .neg a, h => by
+    simp only [evalConv, evalConv_ieee a (by simpa [Ast.WF] using h)]; rfl
+  | .app f a, h => by
+    simp only [evalConv, evalConv_ieee a (by simpa [Ast.WF] using h)]
+    cases f <;> rfl
+  | .bin op a b, h => by
+    simp only [Ast.WF, Bool.and_eq_true] at h
+    simp only [evalConv, evalConv_ieee a h.1, evalConv_ieee b h.2]
+    cases op <;> rfl
+
+theorem cst_ast_wf : ∀ (c : Cst), c.WF = true → c.toAst.WF = true
+  | .lit w t, h => by simp only [Cst.WF, Bool.and_eq_true] at h; simpa [Cst.toAst, Ast.WF] using h.2
+  | .neg w a, h => by
+    simp only [Cst.WF, Bool.and_eq_true] at h; simpa [Cst.toAst, Ast.WF] using cst_ast_wf a h.2
+  | .paren w1 a w2, h => by
+    simp only [Cst.WF, Bool.and_eq_true] at h; simpa [Cst.toAst] using cst_ast_wf a h.1.2
+  | .app w1 f w2 a w3, h => by
+    simp only [Cst.WF, Bool.and_eq_true] at h; simpa [Cst.toAst, Ast.WF] using cst_ast_wf a h.1.2
+  | .bin op a w b, h => by
+    simp only [Cst.WF, Bool.and_eq_true] at h
+    simp [Cst.toAst, Ast.WF, cst_ast_wf a h.1.1, cst_ast_wf b h.2]
+
 /-! ### the conventional renderer -/
 
 theorem blank_spec (l : Layout) (h : l.OK) : l.blank.1.all isBlank = true ∧ l.blank.2.OK := by
@@ -95,7 +240,7 @@ theorem wrap_spec {a : Ast} {lvl need : Nat} (hneed : need ≤ 4) {body : Layout
     · simp [Cst.WF, hb1.1, g3, hb2.1]
     · simpa [Cst.bigInt] using g4
     · simpa [Cst.level] using hneed
-  · simp only [hcond, if_false]
+  · simp only [hcond, Bool.false_eq_true, if_false]
     obtain ⟨g, glev⟩ := hbody l.flag.2 hf
     refine ⟨g, ?_⟩
     simp only [Bool.or_eq_true, decide_eq_true_eq, not_or, Nat.not_lt] at hcond
